@@ -60,9 +60,20 @@ class ConstantFolder(BlockPass):
                 and value.ty.is_integer
                 and self.is_const(value.a)
                 and self.is_const(value.b)
+                and self.is_defined(value)
             )
         else:
             return False
+
+    def is_defined(self, value):
+        """A remainder by zero or a shift by a negative or too large amount
+        has no value at compile time: leave it to the target."""
+        if value.operation == "%":
+            return self.eval_const(value.b).value != 0
+        elif value.operation in ("<<", ">>"):
+            return 0 <= self.eval_const(value.b).value < value.ty.bits
+        else:
+            return True
 
     def eval_const(self, value):
         """Evaluate expression, and return a new const instance"""
